@@ -148,6 +148,9 @@ func genC13(p *Plan, r *RNG) {
 				o.A.Content = r.Pick([]string{"stunlike", "stunvalid", "chanlike", "cookie0"})
 				o.A.Len = r.PickInt([]int{16, 20, 24, 100}) // (long enough to stay unique: the oracle tells payloads apart by their bytes)
 			}
+			if r.Chance(1, 8) {
+				o.A.Flags = []string{"stranger"}
+			}
 			p.Ops = append(p.Ops, o)
 		case w < 82:
 			p.Ops = append(p.Ops, Op{Actor: "app", Kind: "set_deadline", At: g, A: OpArgs{DurNS: r.PickI64([]int64{1, ms, 500 * ms, 3 * sec, 60 * sec, -sec})}})
